@@ -4,7 +4,7 @@
 From Coq Require Import NArith ZArith List Bool String.
 From V Require Import Base.UString Model.PatternEq Spec.PatternSemantics
      Proofs.PatternEqCmp Proofs.PatternEqLists Proofs.PatternEqC Proofs.PatternEqDnf Proofs.PatternEqNorm
-     Proofs.PatternEqTop Proofs.PatternEqO Proofs.PatternEqWitness.
+     Proofs.PatternEqTop Proofs.PatternEqO Proofs.PatternEqWitness Proofs.PatternEqSort Proofs.PatternEqRecog Proofs.PatternEqErr.
 Import ListNotations.
 
 (* ---- the comparators are lawful (reflexive, antisymmetric, transitive as a total preorder) ---- *)
@@ -178,6 +178,94 @@ Proof.
 Qed.
 Print Assumptions equiv_sound_repaired.
 
+(* ---- the documented rewrites are recognised.  For arbitrary sub-expressions the statements are about the
+        pass responsible for the rewrite; for patterns made of one comparison, about the whole pipeline
+        (recognises_*_full).  A statement "equiv lhs rhs = Ok true for all sub-ASTs" through the whole
+        pipeline would need a confluence proof of the settle loops and is not claimed; the harness checks
+        such instances on every run instead (oracle `recognise`). ---- *)
+
+Theorem recognises_commutativity_comparison : forall o l l',
+    Permutation.Permutation l l' -> ccmp (fst (corder_node o l)) (fst (corder_node o l')) = Eq.
+Proof. exact recognises_commute_c. Qed.
+Print Assumptions recognises_commutativity_comparison.
+
+Theorem recognises_commutativity_and : forall l l',
+    Permutation.Permutation l l' -> ocmp (fst (oorder_node OpAnd l)) (fst (oorder_node OpAnd l')) = Eq.
+Proof. exact recognises_commute_o_and. Qed.
+Print Assumptions recognises_commutativity_and.
+
+Theorem recognises_commutativity_or : forall l l',
+    Permutation.Permutation l l' -> ocmp (fst (oorder_node OpOr l)) (fst (oorder_node OpOr l')) = Eq.
+Proof. exact recognises_commute_o_or. Qed.
+Print Assumptions recognises_commutativity_or.
+
+Theorem recognises_associativity_comparison : forall o xs r,
+    fst (cflatten_ops o (mkb o xs :: r)) = (xs ++ fst (cflatten_ops o r))%list.
+Proof. exact recognises_associate_c. Qed.
+Print Assumptions recognises_associativity_comparison.
+
+Theorem recognises_associativity_observation : forall o xs r,
+    fst (oflatten_ops o (mko o xs :: r)) = (xs ++ fst (oflatten_ops o r))%list.
+Proof. exact recognises_associate_o. Qed.
+Print Assumptions recognises_associativity_observation.
+
+Theorem recognises_idempotence_comparison : forall o a a', ccmp a a' = Eq -> fst (corder_node o [a; a']) = mkb o [a].
+Proof. exact recognises_idempotent_c. Qed.
+Print Assumptions recognises_idempotence_comparison.
+
+Theorem recognises_idempotence_or : forall a a', ocmp a a' = Eq -> fst (oorder_node OpOr [a; a']) = OOr [a].
+Proof. exact recognises_idempotent_o_or. Qed.
+Print Assumptions recognises_idempotence_or.
+
+Theorem recognises_absorption_comparison : forall o a b,
+    cabsorb_node o [a; mkb (other_op o) [a; b]] = (mkb o [a], true).
+Proof. exact recognises_absorb_c. Qed.
+Print Assumptions recognises_absorption_comparison.
+
+Theorem recognises_absorption_and : forall a b, is_oqual a = false -> oabsorb_node [a; OAnd [a; b]] = (OOr [a], true).
+Proof. exact recognises_absorb_o_and. Qed.
+Print Assumptions recognises_absorption_and.
+
+Theorem recognises_absorption_followedby : forall a b, is_oqual a = false ->
+    oabsorb_node [a; OFby [a; b]] = (OOr [a], true) /\ oabsorb_node [a; OFby [b; a]] = (OOr [a], true).
+Proof. intros a b Hq. split; [apply recognises_absorb_o_fby_left | apply recognises_absorb_o_fby_right]; exact Hq. Qed.
+Print Assumptions recognises_absorption_followedby.
+
+(* the code's restriction (known finding C09-absorption-qualified-operand) *)
+Theorem absorption_qualified_not_recognised : forall e q b,
+    oabsorb_node [OQual e q; OAnd [OQual e q; b]] = (OOr [OQual e q; OAnd [OQual e q; b]], false).
+Proof. exact absorption_skips_qualified. Qed.
+Print Assumptions absorption_qualified_not_recognised.
+
+Theorem recognises_distribution : forall f a b c,
+    odnf (S (S (S f))) (OAnd [Obs a; OOr [Obs b; Obs c]]) = Ok (OOr [OAnd [Obs a; Obs b]; OAnd [Obs a; Obs c]], true) /\
+    odnf (S (S (S f))) (OFby [Obs a; OOr [Obs b; Obs c]]) = Ok (OOr [OFby [Obs a; Obs b]; OFby [Obs a; Obs c]], true) /\
+    odnf (S (S (S f))) (OFby [OOr [Obs a; Obs b]; Obs c]) = Ok (OOr [OFby [Obs a; Obs c]; OFby [Obs b; Obs c]], true).
+Proof. intros. repeat split. Qed.
+Print Assumptions recognises_distribution.
+
+Theorem recognises_set_order : forall l1 l2, Permutation.Permutation l1 l2 -> const_cmp (KList l1) (KList l2) = Eq.
+Proof. exact PatternEqRecog.recognises_set_order. Qed.
+Print Assumptions recognises_set_order.
+
+Theorem recognises_numeric_equality : forall z e,
+    prim_cmp (PInt z) (PFloat (z * 10 ^ Z.of_N e) e) = Eq /\ forall m, prim_cmp (PFloat m e) (PFloat (m * 10) (e + 1)) = Eq.
+Proof. intros z e. split; [apply recognises_int_float | intro m; apply recognises_trailing_zero]. Qed.
+Print Assumptions recognises_numeric_equality.
+
+Theorem recognises_set_order_full : forall v fuel t p o n l1 l2,
+    special_kind t p = SpNone -> Permutation.Permutation l1 l2 ->
+    equiv v (S fuel) (Obs0 (Atom0 (mkAtom t p o n (KList l1)))) (Obs0 (Atom0 (mkAtom t p o n (KList l2)))) = Ok true.
+Proof. exact PatternEqRecog.recognises_set_order_full. Qed.
+Print Assumptions recognises_set_order_full.
+
+Theorem recognises_numeric_full : forall v fuel t p o n z e,
+    special_kind t p = SpNone ->
+    equiv v (S fuel) (Obs0 (Atom0 (mkAtom t p o n (KP (PInt z)))))
+          (Obs0 (Atom0 (mkAtom t p o n (KP (PFloat (z * 10 ^ Z.of_N e) e))))) = Ok true.
+Proof. exact PatternEqRecog.recognises_numeric_full. Qed.
+Print Assumptions recognises_numeric_full.
+
 (* ---- the defective variants of the special-value pass (what /repo does at the pinned commit) ---- *)
 
 (* never fails: refuted for the pinned variant on [ipv4-addr:value = 5], holds there for the repaired one *)
@@ -188,6 +276,19 @@ Print Assumptions never_raises_pinned_refuted.
 Theorem never_raises_repaired_witness : equiv repaired 8 w_ip_int w_ip_int = Ok true.
 Proof. exact repaired_answers. Qed.
 Print Assumptions never_raises_repaired_witness.
+
+(* never fails, repaired variant -- PARTIAL.  Full statement (not proved):
+     forall p q, (every AND node of p and q passes the constructors' root-type rule) ->
+                 exists fuel b, equiv repaired fuel p q = Ok b
+   i.e. termination of the two settle loops and non-emptiness of the distributed operand sets of a
+   valid AND.  Proved: the only failures of the repaired model are fuel exhaustion and the
+   AttributeError of DNF on an AND all of whose distributed sets were pruned (never ValueError /
+   TypeError / the AttributeErrors of the special-value pass); the harness counts fuel exhaustions
+   (none at fuel 64 on any generated pattern). *)
+Theorem equiv_never_raises_partial : forall fuel p q e,
+    equiv repaired fuel p q = Err e -> e = EFuel \/ e = EAttribute.
+Proof. exact equiv_repaired_err. Qed.
+Print Assumptions equiv_never_raises_partial.
 
 (* sound: refuted for the pinned variant (the side condition safe_o of equiv_sound cannot be dropped):
    base64 text lower-cased on a registry-key path, regular expression lower-cased *)
